@@ -44,6 +44,8 @@ type HarnessResult struct {
 	Scripts     []string
 	WallS       float64
 	Exhausted   bool
+	TimeBoxHit  bool // exploration stopped by the wall-clock time box (thorough tier): partial coverage
+	Pending     int  // unexplored decision prefixes left when exploration stopped
 	MaxDepthHit int
 }
 
@@ -104,7 +106,10 @@ func (e *Engine) Explore(entry *ssa.Function, cfg Config) *HarnessResult {
 			}
 			prefix := work[len(work)-1]
 			work = work[:len(work)-1]
-			if started >= cfg.MaxPaths {
+			if cfg.TimeBoxS > 0 && time.Since(t0).Seconds() > float64(cfg.TimeBoxS) {
+				res.TimeBoxHit = true
+			}
+			if started >= cfg.MaxPaths || res.TimeBoxHit {
 				stop = true
 				work = append(work, prefix)
 				mu.Unlock()
@@ -202,6 +207,7 @@ func (e *Engine) Explore(entry *ssa.Function, cfg Config) *HarnessResult {
 	}
 	wg.Wait()
 	res.Exhausted = len(work) == 0 && !stop
+	res.Pending = len(work)
 	res.WallS = time.Since(t0).Seconds()
 	sort.Slice(res.Violations, func(i, j int) bool { return res.Violations[i].Msg < res.Violations[j].Msg })
 	return res
